@@ -175,6 +175,9 @@ def cases(draw):
 	from vf import syngen
 	rnd = draw(st.randoms(use_true_random=False))
 	src, stats = syngen.gen_module(rnd, rnd.choice(['mixed', 'mixed', 'mixed', 'expr']))
+	if rnd.random() < 0.2:
+		src = src.replace('\n', '\r\n')  # a CRLF checkout: the line breaks inside multi-line string tokens are part of the token value
+		stats = dict(stats, crlf=True)
 	return {'source': src, 'stats': stats}
 
 
@@ -210,7 +213,7 @@ def shard(ctx: core.Ctx) -> None:
 			ctx.evaluations += 1
 			return
 		ctx.case(case['source'], info['none'] > 0 and info['empty_meta'] > 0, sample={'source': case['source'], 'entries': info['entries'], 'empty_slots': info['none'], 'trees_with_empty_meta': info['empty_meta']} if len(case['source']) < 300 else None,
-			labels=['g2-module'] + (['has-empty-slot'] if info['none'] else []) + (['has-empty-meta'] if info['empty_meta'] else []))
+			labels=['g2-module'] + (['crlf'] if case['stats'].get('crlf') else []) + (['has-empty-slot'] if info['none'] else []) + (['has-empty-meta'] if info['empty_meta'] else []))
 		for sig, detail in fails:
 			ctx.fail(sig, detail + f'\n  source={case["source"]!r}', {'kind': 'module', 'source': case['source']})
 
